@@ -30,7 +30,7 @@ def demo(d, tag):
         os.remove(os.path.join(WT, 'tests', 'demo_%s.rs' % tag))
         return rc, out[-1200:]
     if os.path.exists(os.path.join(d, 'demo.sh')):
-        rc, out = sh('sh %s %s 2>&1' % (os.path.join(d, 'demo.sh'), WT), cwd=d)
+        rc, out = sh('bash %s %s 2>&1' % (os.path.join(d, 'demo.sh'), WT), cwd=d)
         for t in glob.glob(os.path.join(d, 'scratch*', 'target')) + glob.glob(os.path.join(d, '**', 'target'), recursive=True):
             shutil.rmtree(t, ignore_errors=True)
         return rc, out[-1200:]
